@@ -21,7 +21,15 @@ Record case := mk_case8 {
   c_orig : list bool               (* per chunk: true = original, false = modified / foreign *)
 }.
 
-Definition run_with (fx : fixes) (c : case) : list Z := C09.Model.run_with fx (c_recv c).
+(* every chunk meets the channel in the same state (the harness resets the policy an OPN chunk may
+   have changed): status and length of the returned chunk *)
+Definition one (fx : fixes) (c : case) (ch : bytes) : res bytes :=
+  fst (recv (C09.Model.tr_prims (C09.Model.c_tr (c_recv c))) fx
+            (C09.Model.receiver_of (c_recv c) (C09.Model.c_policy (c_recv c))) ch).
+Definition report (r : res bytes) : list Z :=
+  match r with Ok rc => [0; len rc] | _ => [C09.Model.code9 r; -1] end.
+Definition run_with (fx : fixes) (c : case) : list Z :=
+  flat_map (fun ch => report (one fx c (C09.Model.flat ch))) (C09.Model.c_chunks (c_recv c)).
 Definition run (c : case) : list Z := run_with current c.
 
 (* output: (status, length) per chunk; status 0 = accepted, 1 / 2 = rejected with an error, -2 = panic *)
